@@ -508,7 +508,7 @@ func sig(in Input, tr []Ev) string {
 func shape(in Input, tr []Ev) string {
 	var b strings.Builder
 	if in.Plumb != nil {
-		return "plumb:" + in.Plumb.Base + ":" + strings.Join(in.Plumb.Steps, ",")
+		return "plumb:" + in.Plumb.Base + ":" + strings.Join(in.Plumb.Steps, ",") + ":" + in.Plumb.Body + ":" + in.Plumb.Finish
 	}
 	for _, p := range in.Progs {
 		for _, o := range p {
@@ -742,7 +742,11 @@ func main() {
 		out.Count("races", fmt.Sprint(o.Races))
 		if in.Plumb != nil {
 			out.Count("plumbing_base", in.Plumb.Base)
-			out.Count("plumbing_steps", strings.Join(in.Plumb.Steps, ","))
+			for _, st := range in.Plumb.Steps {
+				out.Count("plumbing_step_kinds", st)
+			}
+			out.Count("plumbing_len", fmt.Sprint(len(in.Plumb.Steps)))
+			out.Count("plumbing_exotic", fmt.Sprint(in.Plumb.exotic()))
 			return o
 		}
 		out.Count("goroutines", fmt.Sprint(len(in.Progs)-1))
@@ -810,6 +814,24 @@ func main() {
 		add("plumb", Input{Plumb: &pl})
 	}
 	r := lib.NewRng(a.Seed)
+	// forms outside the small model (commit, Begin options, failing Begin, nested Begin / blocks with
+	// their save points, SavePoint/RollbackTo, Connection inside a transaction): all of length
+	// <= 2 (thorough 3), plus a random sample of the next length; judged against non-prepared mode
+	ex := exoticPlumb(maxLen - 1)
+	for _, pl := range ex {
+		pl := pl
+		add("plumb-x", Input{Plumb: &pl})
+	}
+	if a.Tier != "thorough" {
+		ex3 := exoticPlumb(maxLen)
+		pr := r.Fork()
+		for i := 0; i < 80; i++ {
+			pl := ex3[pr.Intn(len(ex3))]
+			if len(pl.Steps) == maxLen {
+				add("plumb-x", Input{Plumb: &pl})
+			}
+		}
+	}
 	if a.Tier == "thorough" {
 		enumerate(add, a.N)
 	} else {
@@ -844,7 +866,11 @@ func main() {
 		in.Progs = append(in.Progs, []Op{{K: "close"}})
 		in.Script = []Step{{Pick: -1}}
 		for k := 0; k < 20; k++ {
-			in.Script = append(in.Script, Step{Pick: r.Intn(4)})
+			st := Step{Pick: r.Intn(4)}
+			if i%2 == 1 && r.Chance(1, 2) {
+				st.Out = 1 // a burst whose Prepare calls fail: waiters of both lookups get the error
+			}
+			in.Script = append(in.Script, st)
 		}
 		add("burst", in)
 	}
